@@ -48,8 +48,10 @@ def text_token(draw, force_text=False):
         t = "p" + t
     if t == "loop_":
         t = "loopx"
-    if t.startswith("data_"):
-        t = "d" + t
+    if draw(st.integers(0, 11)) == 0:  # values that look like keywords of the format but are ordinary values inside a loop
+        t = draw(st.sampled_from(["data_", "data_set1.mrc", "data_particles", "loop_x", "data"])) + (t[:3] if draw(st.booleans()) else "")
+        if t == "loop_":
+            t = "loop_1x"
     return t
 
 
